@@ -98,10 +98,16 @@ func verifyUnit(p *Program, u *Unit) (res *UnitResult) {
 		// ghost draw counter (only materialised when used)
 	}
 	// tensors handed in by the caller exist before the call (allocations made here get positive birth stamps)
-	for _, v := range r.paramVal {
+	for name, v := range r.paramVal {
 		if v.K == KRef && v.Sort == "T" {
+			// relative time: whatever is handed in exists before anything this call allocates
 			r.declBirth("T")
 			st.assume(sx("<=", sx("birth_T", v.T), "0"))
+			// type invariant of tensor-typed parameters: the tensor is complete (its constructing function has returned), so
+			// the representation links hold for it. Checked statically at every call site (see applyContract).
+			if !u.Unpublished[name] {
+				st.assume(implies(not(eq(v.T, "nilT")), sx("published", v.T)))
+			}
 		}
 	}
 	r.entry = st.clone()
@@ -307,6 +313,23 @@ func verifyLemma(p *Program, ax Axiom) *UnitResult {
 	st := &State{u: r, vars: map[types.Object]Val{}, names: map[string]types.Object{}, arrs: map[*Obj]string{}, heap: map[string]string{}, frozen: map[*Obj]bool{}, ghost: map[string]Val{}}
 	r.entry = st.clone()
 	env := &SpecEnv{run: r, st: st, old: r.entry, bound: map[string]Val{}}
+	if ax.Induct != "" {
+		// induction on hi - lo: base and step are the obligations; the quantified conclusion is what "uses" provides
+		mk := func(src string) Clause {
+			e, err := parser.ParseExpr(src)
+			if err != nil {
+				panic(toolLimit("induct " + ax.Name + ": " + err.Error()))
+			}
+			return Clause{Expr: e, Text: src, Where: ax.C.Where}
+		}
+		base := mk(fmt.Sprintf("forallI(lo, forallI(hi, imp(lo == hi, %s(lo, hi))))", ax.Induct))
+		step := mk(fmt.Sprintf("forallI(lo, forallI(hi, imp(lo < hi && %s(lo+1, hi), %s(lo, hi))))", ax.Induct, ax.Induct))
+		r.oblige(st, "lemma", "base", r.specBool(env, base, "induction base of "+ax.Name), nil, "induction base (lo == hi) of "+ax.Name, nil)
+		r.oblige(st, "lemma", "step", r.specBool(env, step, "induction step of "+ax.Name), nil, "induction step (lo+1 => lo) of "+ax.Name, nil)
+		r.assumption("induction principle on hi - lo for " + ax.Name + " (base and step are machine-checked; the principle itself is qv's)")
+		r.oblige(st, "canary", "entry", "false", nil, "domain axioms are consistent (must NOT be provable)", nil)
+		return res
+	}
 	goal := r.specBool(env, ax.C, "lemma "+ax.Name)
 	r.oblige(st, "lemma", "0", goal, nil, "lemma "+ax.Name+": "+ax.C.Text, nil)
 	r.oblige(st, "canary", "entry", "false", nil, "domain axioms are consistent (must NOT be provable)", nil)
